@@ -241,7 +241,9 @@ type Proposal struct {
 }
 
 // NoEvidence is the empty byzantine evidence.
-func NoEvidence() *bft.ByzantineEvidence { return &bft.ByzantineEvidence{DSE: bft.DoubleSignEvidences{}} }
+func NoEvidence() *bft.ByzantineEvidence {
+	return &bft.ByzantineEvidence{DSE: bft.DoubleSignEvidences{}}
+}
 
 // Produce = BFT.StartProposePhase's call of Controller.ProduceProposal (no evidence, no VDF).
 func (n *Node) Produce() (*Proposal, lib.ErrorI) {
@@ -430,4 +432,6 @@ func (n *Node) Committee(rootHeight uint64) (lib.ValidatorSet, lib.ErrorI) {
 }
 
 // String describes the node.
-func (n *Node) String() string { return fmt.Sprintf("%s(chain %d h=%d)", n.Name, n.Cfg.ChainId, n.Height()) }
+func (n *Node) String() string {
+	return fmt.Sprintf("%s(chain %d h=%d)", n.Name, n.Cfg.ChainId, n.Height())
+}
